@@ -781,9 +781,8 @@ def in4(F, R):
                 if any(mentions(a, lambda x: x[0] == "field" and x[2] == "(tuple)::0" and mentions(x[1], p)) for a in e.args):
                     uses_label = True
             if source_method(it.it) == "keys":
-                # edges.keys(): the item is the label itself
-                if any(an == "map" for an, _ in it.adaptors) or it.body_events():
-                    uses_label = True
+                # edges.keys(): the item is the label itself; whatever is done per item is done with the label
+                uses_label = True
             if uses_label:
                 R.ok("IN4", it.where(), "v_print lists one label per edge of the printed vertex")
             else:
